@@ -724,6 +724,9 @@ namespace fixedmath
     else if( ulo < (1<<16) )
       {
       int lshbits{ std::max(cxx20::countl_zero( uhi ) - 30,0) >> 1 };
+      //keep sum of squares below 2^64, (uhi<<lshbits)^2 alone has to stay below 2^63
+      if( (uhi << lshbits) >= 0xb504f334ull )
+        --lshbits;
       uhi <<= lshbits;
       ulo <<= lshbits;
       return as_fixed( sqrt( as_fixed( (uhi*uhi+ulo*ulo)>>prec_) ).v  >> lshbits);
